@@ -93,7 +93,7 @@ PROPS['C04'] = dict(
 )
 PROPS['C05'] = dict(
     title='macro expansion',
-    units=['arms', 'bind'],
+    units=['arms', 'bind', 'depth'],
     shims=['A-glue', 'A-hashmap', 'A-str', 'A-arith'],
     design='DESIGN.md 3/C05',
     technique='contract-based deductive verification (Verus) of the verbatim TextMacroUsage arm and of the actual/formal binding block of resolve_text_macro_usage',
